@@ -879,16 +879,20 @@ def trigger(case, viol):
     label = case['backend']['label']
     t = []
     strs = [k for k in ks if isinstance(k, str)]
-    if any(k is None for k in ks):
+    if label.startswith('sql') and any(k is None for k in ks):
         t.append('none-key')
-    if any('/' in k for k in strs):
-        t.append('slash-in-key')
-    if any(len(k) > 200 for k in strs):
-        t.append('long-key')
-    if any(k == '' for k in strs):
-        t.append('empty-key')
-    if any(k.startswith('.') for k in strs):
-        t.append('dot-key')
+    if label.startswith('dir'):
+        # features of the key -> directory-name mapping only matter for directory archives
+        if any('/' in k for k in strs):
+            t.append('slash-in-key')
+        if any(len(k) > 200 for k in strs):
+            t.append('long-key')
+        if any(k == '' for k in strs):
+            t.append('empty-key')
+        if any(k.startswith('.I_') for k in strs):
+            t.append('temp-prefix-key')
+        elif any(k.startswith('.') for k in strs):
+            t.append('dot-key')
     if label.startswith('dir'):
         names = {}
         for k in ks:
